@@ -173,7 +173,8 @@ class G:
                  "intersection_assign", "poly_hull_assign", "topological_closure_assign",
                  "add_space_dimensions_and_embed", "add_space_dimensions_and_project", "poly_difference_assign", "time_elapse_assign",
                  "add_recycled_constraints", "simplify_using_context_assign", "poly_hull_assign_if_exact",
-                 "refine_with_congruence", "add_congruence", "refine_with_congruences", "positive_time_elapse_assign"]
+                 "refine_with_congruence", "add_congruence", "refine_with_congruences", "positive_time_elapse_assign",
+                 "add_generators_from"]
         if n > 0:
             cands += ["affine_image", "affine_image", "affine_preimage", "generalized_affine_image", "generalized_affine_preimage",
                       "bounded_affine_image", "bounded_affine_preimage", "unconstrain", "unconstrain_set",
@@ -199,6 +200,8 @@ class G:
                 # slab: one- and two-piece differences, hulls with one new face), so that the operator is not
                 # applied to the receiver itself most of the time
                 o = len(dims); dims[o] = n; topos[o] = topo
+                if getattr(self, "special_rate", 0) and r.random() < self.special_rate:
+                    return [self.special(o, n, topo), "%s %d" % (p, o)]
                 u = r.random()
                 if u < 0.45: how = "cons %s" % self.cons(n, topo, 1, 2)
                 elif u < 0.65: how = "cons %s" % self.cons(n, topo)
@@ -206,6 +209,12 @@ class G:
                 else: return [self.special(o, n, topo), "%s %d" % (p, o)]
                 return ["new %d %s %d %s" % (o, topo, n, how), "%s %d" % (p, o)]
             return "%s %d" % (p, r.choice(same))
+        if op == "add_generators_from":
+            ys = [y for y in dims if dims[y] == n and y != x]
+            if not ys or r.random() < 0.4:
+                o = len(dims); t2 = r.choice(["C", "NNC", "NNC"]); dims[o] = n; topos[o] = t2
+                return ["new %d %s %d gens %s" % (o, t2, n, self.gens(n, t2)), "%s %d" % (p, o)]
+            return "%s %d" % (p, r.choice(ys))
         if op in ("refine_with_congruence", "add_congruence"):
             m = r.choice([0, 0, 1, 2, 3]) if op == "refine_with_congruence" else 0
             return "%s %d %d %s" % (p, m, self.coef(-3, 3), " ".join(map(str, self.vec(n, nz=False))))
